@@ -152,6 +152,7 @@ type unit struct {
 	Deps      map[string]bool
 	Sha       string
 	SrcLines  int
+	tree      *tunit // tree pointer mode (treeheap.go)
 }
 
 func (u *unit) allDecls() []ast.Decl {
@@ -267,6 +268,9 @@ func (t *translator) absFunc(a *absIface, name string, static bool, at token.Pos
 			}
 		}
 	}
+	if found == nil && !static { // sorting.go: the abstract type is an INTERFACE type: its method set is its declaration
+		found, tps = ifaceMethod(files, a.Type, name)
+	}
 	if found == nil {
 		t.unsupported(at, "abstract container %s.%s has no method %s", a.Dir, a.Type, name)
 	}
@@ -296,7 +300,7 @@ func (t *translator) absFunc(a *absIface, name string, static bool, at token.Pos
 			fi.Variadic = true
 		}
 		x := t.resolveType(pt, c)
-		if x.K == kStruct || x.K == kFunc {
+		if x.K == kStruct || (x.K == kFunc && !allFlat(x)) { // a callback over ints / T / bool is passed on as a function
 			t.unsupported(at, "abstract method %s.%s takes a struct / function parameter", a.Type, name)
 		}
 		if x.K == kCmp && a.unit != nil {
@@ -517,7 +521,7 @@ func qual(u, from *unit, n string) string {
 
 func (t *translator) coqType(x ty, from *unit) string {
 	switch x.K {
-	case kInt, kElem:
+	case kInt, kElem, kUint: // kUint: loops.go (an unsigned int: a Z that is never negative, arithmetic through GoUint)
 		return "Z"
 	case kBool:
 		return "bool"
@@ -581,7 +585,7 @@ func (t *translator) resultType(rs []ty, from *unit) string {
 
 func zero(x ty) (string, bool) {
 	switch x.K {
-	case kInt, kElem:
+	case kInt, kElem, kUint:
 		return "0", true
 	case kBool:
 		return "false", true
@@ -737,6 +741,8 @@ func (t *translator) resolveType(e ast.Expr, c tctx) ty {
 		switch x.Name {
 		case "int":
 			return ty{K: kInt}
+		case "uint": // loops.go
+			return ty{K: kUint}
 		case "bool":
 			return ty{K: kBool}
 		case "error":
@@ -1141,6 +1147,12 @@ func (f *fx) expr(x ast.Expr, e env) (string, ty) {
 			}
 			f.bad(n.Pos(), "comparison of non-constant floating-point values")
 		}
+		if s, ok := f.cmpTest(n, e); ok { // comparator call compared with 0 (cmpcall.go)
+			return s, ty{K: kBool}
+		}
+		if n.Op == token.SHL || n.Op == token.SHR { // loops.go
+			return f.shift(n, e)
+		}
 		if n.Op == token.EQL || n.Op == token.NEQ {
 			isNil := func(x ast.Expr) bool {
 				id, ok := x.(*ast.Ident)
@@ -1187,6 +1199,9 @@ func (f *fx) expr(x ast.Expr, e env) (string, ty) {
 				s = "(negb " + s + ")"
 			}
 			return s, ty{K: kBool}
+		}
+		if ta.K == kUint || tb.K == kUint { // loops.go
+			return f.uintOp(n, a, ta, b, tb)
 		}
 		arith := func(op string) (string, ty) {
 			f.want(n.X, ta, kInt)
@@ -1429,6 +1444,9 @@ func (f *fx) composite(cl *ast.CompositeLit, e env) (string, ty) {
 func (f *fx) sliceFresh(rhs ast.Expr) {
 	if f.capMode() {
 		return // aliasing is out of scope in capacity-aware units (see README)
+	}
+	if f.freshValues(rhs) { // sorting.go: Values() of an abstract container hands out a fresh slice (whitelisted assumption)
+		return
 	}
 	if c, ok := rhs.(*ast.CallExpr); ok {
 		if id, ok := c.Fun.(*ast.Ident); ok && id.Name == "make" {
@@ -1752,6 +1770,9 @@ func (f *fx) call(c *ast.CallExpr, e env) (string, []ty, *funcInfo) {
 				return "(List.repeat 0 (Z.to_nat " + n + "))", []ty{{K: kSlice}}, nil
 			}
 		}
+		if vi, ok := e.vars[fn.Name]; ok && vi.ty.K == kCmp { // cmpcall.go
+			return f.cmpCall(c, vname(fn.Name), e)
+		}
 		if vi, ok := e.vars[fn.Name]; ok && vi.ty.K == kFunc {
 			if len(c.Args) != len(vi.ty.Params) {
 				f.bad(c.Pos(), "call of %s with a wrong number of arguments", fn.Name)
@@ -1827,6 +1848,12 @@ func (f *fx) call(c *ast.CallExpr, e env) (string, []ty, *funcInfo) {
 		if tr.K == kIter {
 			f.bad(c.Pos(), "iterator used as a value")
 		}
+		if tr.K == kStruct { // a comparator field called: cmpcall.go
+			if fl := tr.S.field(fn.Sel.Name); fl != nil && fl.Ty.K == kCmp {
+				cs, _ := f.selector(fn, e)
+				return f.cmpCall(c, cs, e)
+			}
+		}
 		if tr.K == kAbs {
 			for _, g := range f.t.funcs {
 				if g.Unit == f.u && g.OpaqueRecv != "" && g.OpaqueIface == tr.A && g.Name == fn.Sel.Name {
@@ -1871,8 +1898,8 @@ func (f *fx) apply(c *ast.CallExpr, info *funcInfo, recv string, recvExpr ast.Ex
 	} else {
 		s = "(" + qual(info.Unit, f.u, info.Coq)
 	}
-	if info.Fuel {
-		f.bad(c.Pos(), "call of the fuelled function %s", info.Name)
+	if info.Fuel { // the caller hands its own fuel on (loops.go)
+		s += f.fuelArg(c, info)
 	}
 	if info.Abs != nil && !info.Static {
 		s += " " + recv
@@ -2040,8 +2067,8 @@ func (f *fx) callStmt(c *ast.CallExpr, e env) (prefix string, temps []string, rs
 	} else if len(temps) > 1 {
 		pat = "(" + strings.Join(temps, ", ") + ")"
 	}
-	if info != nil && info.Partial {
-		f.bad(c.Pos(), "call of the partial function %s (may panic / loops)", info.Name)
+	if info != nil && info.Partial { // bound with `do` (loops.go)
+		return f.partialCallStmt(c, s, info, temps, pat, rs, e)
 	}
 	if info != nil && info.Writes {
 		sel := c.Fun.(*ast.SelectorExpr)
@@ -2123,6 +2150,9 @@ func (f *fx) stmts(ss []ast.Stmt, e env, k cont, top bool) string {
 		return k(e)
 	}
 	s, rest := ss[0], ss[1:]
+	if pre, s2, e2, ok := f.hoistPartial(s, e); ok { // loops.go: partial calls nested in expressions are bound first
+		return pre + f.stmts(append([]ast.Stmt{s2}, rest...), e2, k, top)
+	}
 	next := func(e2 env) string { return f.stmts(rest, e2, k, top) }
 	switch n := s.(type) {
 	case *ast.EmptyStmt:
@@ -2161,6 +2191,10 @@ func (f *fx) stmts(ss []ast.Stmt, e env, k cont, top bool) string {
 		return out + next(e)
 	case *ast.IncDecStmt:
 		cur, tc := f.expr(n.X, e)
+		if tc.K == kUint { // loops.go: wrap-around arithmetic
+			p, e2 := f.assign(n.X, f.uintIncDec(cur, n.Tok), tc, false, e)
+			return p + next(e2)
+		}
 		f.want(n.X, tc, kInt)
 		op := " + 1"
 		if n.Tok == token.DEC {
@@ -2202,6 +2236,9 @@ func (f *fx) stmts(ss []ast.Stmt, e env, k cont, top bool) string {
 		if p, _, e2, ok := f.jsonUnmarshal(c, e); ok { // the error is dropped
 			return p + next(e2)
 		}
+		if p, e2, ok := f.sortStmt(c, e); ok { // sorting.go: slices.Sort(x) / slices.SortFunc(x, cmp)
+			return p + next(e2)
+		}
 		if id, isId := c.Fun.(*ast.Ident); isId && id.Name == "panic" {
 			if !f.fi.Partial {
 				f.bad(n.Pos(), "internal: panic in a function not marked partial")
@@ -2225,9 +2262,14 @@ func (f *fx) stmts(ss []ast.Stmt, e env, k cont, top bool) string {
 			loop := &ast.ForStmt{For: n.For, Cond: n.Cond, Body: n.Body}
 			return f.iterLoop(as, append([]ast.Stmt{loop}, rest...), e, k, top, true)
 		}
+		if f.t.isGeneralLoop(f.fi, n) { // loops.go
+			return f.generalLoop(n, e, next)
+		}
 		return f.forStmt(n, rest, e, k, next, top)
 	case *ast.RangeStmt:
 		return f.rangeStmt(n, rest, e, k, next, top)
+	case *ast.BranchStmt: // loops.go
+		return f.branchStmt(n)
 	}
 	f.bad(s.Pos(), "statement %T", s)
 	return ""
@@ -2301,6 +2343,10 @@ func (f *fx) assignStmt(n *ast.AssignStmt, e env, next cont) string {
 			op = token.QUO
 		case token.REM_ASSIGN:
 			op = token.REM
+		case token.SHL_ASSIGN:
+			op = token.SHL
+		case token.SHR_ASSIGN:
+			op = token.SHR
 		default:
 			f.bad(n.Pos(), "assignment operator %s", n.Tok)
 		}
@@ -2479,7 +2525,7 @@ func (f *fx) ifStmt(n *ast.IfStmt, e env, next cont) string {
 		}
 		return a, b
 	}
-	exits := hasExit(n.Body) || (n.Else != nil && hasExit(n.Else))
+	exits := hasExit(n.Body) || (n.Else != nil && hasExit(n.Else)) || f.leavesOrPartial(n)
 	if exits {
 		// early exit in a branch: the rest of the function is the continuation of both branches
 		k := func(e2 env) string { return next(env{vars: dropDeeper(e2, e.depth), depth: e.depth}) }
@@ -2620,6 +2666,11 @@ func (f *fx) forStmt(n *ast.ForStmt, rest []ast.Stmt, e env, k cont, next cont, 
 			f.bad(n.Pos(), "internal: loop in a function not marked as fuelled")
 		}
 		f.nloop++
+		gasLoop := f.t.hasFuelCall(f.fi, n) // loops.go: the loop hands the function's fuel to callees: its own counter is `gas`
+		if !gasLoop {
+			fuelShadowed[f]++ // inside this Fixpoint `fuel` is the loop's own counter
+			defer func() { fuelShadowed[f]-- }()
+		}
 		name := f.fi.Coq + "_loop" + strconv.Itoa(f.nloop)
 		// loop state: every variable in scope
 		vars := e.ordered()
@@ -2631,6 +2682,9 @@ func (f *fx) forStmt(n *ast.ForStmt, rest []ast.Stmt, e env, k cont, next cont, 
 			args = append(args, vname(nm))
 		}
 		recur := "(" + name + " fuel' " + strings.Join(args, " ") + ")"
+		if gasLoop {
+			recur = "(" + name + " fuel gas' " + strings.Join(args, " ") + ")"
+		}
 		exit := func(e2 env) string {
 			return f.stmts(rest, env{vars: dropDeeper(e2, e.depth), depth: e.depth}, k, false)
 		}
@@ -2649,8 +2703,15 @@ func (f *fx) forStmt(n *ast.ForStmt, rest []ast.Stmt, e env, k cont, next cont, 
 		body := f.stmts(n.Body.List, e.deeper(), func(env) string { return recur }, false)
 		def := "Fixpoint " + name + " (fuel : nat) " + strings.Join(binders, " ") + " {struct fuel} : " + f.retType() + " :=\n" +
 			"match fuel with\n| O => None (* out of fuel *)\n| S fuel' =>\n" + head + "if " + cvar + "\nthen (" + body + ")\nelse (" + exit(e) + ")\nend.\n"
+		if gasLoop {
+			def = "Fixpoint " + name + " (fuel : nat) (gas : nat) " + strings.Join(binders, " ") + " {struct gas} : " + f.retType() + " :=\n" +
+				"match gas with\n| O => None (* out of fuel *)\n| S gas' =>\n" + head + "if " + cvar + "\nthen (" + body + ")\nelse (" + exit(e) + ")\nend.\n"
+		}
 		if f.dry == 0 {
 			f.aux = append(f.aux, def)
+		}
+		if gasLoop {
+			return "(" + name + " fuel fuel " + strings.Join(args, " ") + ")"
 		}
 		return "(" + name + " fuel " + strings.Join(args, " ") + ")"
 	}
@@ -2850,7 +2911,7 @@ func (f *fx) iterLoop(n *ast.AssignStmt, rest []ast.Stmt, e env, k cont, top boo
 	var enum string
 	switch tx.K {
 	case kStruct:
-		if m := f.t.findMethod(tx.S, "Iterator"); m != nil && m.Unit == f.u {
+		if m := f.t.findMethod(tx.S, "Iterator"); m != nil && m.Unit == f.u && !f.u.Spec.EnumOwnIterator {
 			f.bad(n.Pos(), "Iterator() is a translated method of this file: iterator objects are not modelled")
 		}
 		if tx.S.Unit != f.u {
